@@ -359,6 +359,8 @@ def oracle_verify(m2: bytes, m4, transport: str, acc_id: bytes, ltpk: bytes, dh,
             rk = hkdf_sha512(resume, eph_pk + sid, L_RES_RESP)
             if aead_open(rk, nonce12(b"PR-Msg02"), b"", tag) == b"":
                 return "resume", hkdf_sha512(resume, eph_pk + sid, L_RES_SECRET), None
+            if T_PK not in v2:
+                return None, None, "m2:resume-tag"
     if T_PK not in v2 or T_ENC not in v2:
         return None, None, "m2:field-missing"
     shared = dh(v2[T_PK])
